@@ -525,7 +525,7 @@ func TestVerifC29(t *testing.T) {
 	r.Assume("virtual tables: a reverse step after SeekGE beyond the virtual upper bound, and a forward step after SeekLT below the virtual lower bound, are not issued (callers only seek inside the file bounds)")
 	r.Assume("hide-obsolete model = the writer's documented obsolete rule (format.go, evaluatePoint C1-C3 + forceObsolete)")
 	r.Assume("a point iterator with the obsolete-key block property filter and a synthetic suffix is never opened on a table without point keys (levelIter skips files with !HasPointKeys); there IntersectsTable fails the assertion 'block with synthetic suffix is obsolete'")
-	n := vcommon.Scale(300, 15000)
+	n := vcommon.Scale(300, 40000)
 	r.Cases(n, func(i int, rng *rand.Rand) {
 		if msg, stack := sstmodel.Guard(func() { runTransformCase(r, i, rng) }); msg != "" {
 			r.Violate("panic", "panic: "+msg, map[string]any{"case": i, "panic": msg, "stack": stack, "desc": lastDesc,
@@ -789,7 +789,7 @@ func TestVerifC29Copy(t *testing.T) {
 	r.Rule("each case = one random table (row and columnar formats, single/two-level index, small blocks) and a span [start,end) at/between keys, at block boundaries and inside blocks, " +
 		"including whole-table and beyond-the-end spans, with a partially warm block cache; CopySpan output is scanned and must contain every span entry and be a contiguous run of input entries; " +
 		"tables with value blocks / range keys / range dels must be copied byte-for-byte; distinct = (format, options, span), tables with < 2 entries are trivial")
-	n := vcommon.Scale(200, 8000)
+	n := vcommon.Scale(200, 16000)
 	r.Cases(n, func(i int, rng *rand.Rand) {
 		if msg, stack := sstmodel.Guard(func() { runCopyCase(r, i, rng) }); msg != "" {
 			r.Violate("panic", "panic: "+msg, map[string]any{"case": i, "panic": msg, "stack": stack, "desc": lastDesc,
